@@ -141,7 +141,13 @@ func c15(args []string) error {
 			links = append(links, fmt.Sprintf("/hub%d-odd%s", k, o))
 			org.Route(h, fmt.Sprintf("/hub%d-odd%s", k, strings.SplitN(o, "?", 2)[0]), htmlPage("odd", nil, nil))
 		}
-		org.Route(h, p+"/index.html", htmlPage("hub", nil, links))
+		hub := htmlPage("hub", nil, links)
+		if k%3 == 1 { // an outlink named only in a Link response header (pagination)
+			next := p + "/next.html"
+			org.Route(h, next, htmlPage("next", nil, nil))
+			hub.Headers = map[string]string{"Content-Type": "text/html; charset=utf-8", "Link": "<" + org.URL(h, next) + ">; rel=\"next\""}
+		}
+		org.Route(h, p+"/index.html", hub)
 		hops := r.Intn(2)
 		via := ""
 		if r.Intn(2) == 0 {
